@@ -24,7 +24,15 @@ func (s *Syncer[H]) subjectiveTail(ctx context.Context, head H) (H, error) {
 		// If a new head arrives, while tail for the previous head is still in progress
 		// it is valid to skip tail renewal for the new one. It will be resolved with a more recent head
 		// once in progress tail finishes.
-		return oldTail, nil
+		if !oldTail.IsZero() {
+			return oldTail, nil
+		}
+		// ... unless there is no tail at all yet: nothing can be done with the head on an empty store.
+		// Wait for the attempt in progress and look again.
+		s.tailMu.Lock()
+		if tail, err := s.store.Tail(ctx); err == nil {
+			oldTail = tail
+		}
 	}
 	defer s.tailMu.Unlock()
 
